@@ -187,6 +187,13 @@ def _diff_interval(doc, thr, dom):
 def _not_looser(thr, doc):
     if same(thr, doc):
         return True, "threshold == documented epsilon*(1-gamma)/gamma (epsilon when gamma == 1)"
+    from ..terms import subterms
+    approx = [t for t in subterms(thr) if t[0] == "ite" and t[1][0] == "app" and t[1][1].split(".")[-1] in ("isclose", "allclose")]
+    if approx:
+        c = approx[0]
+        return False, (f"the threshold branch is selected by an approximate comparison `{show_norm(c[1])}`: every gamma within its tolerance of 1 "
+                       f"(but below 1) gets the undiscounted threshold {show_norm(c[2])} instead of {show_norm(c[3])}, which is looser by the "
+                       "factor gamma/(1-gamma): the a-priori error bound is void there")
     dom = {GAMMA: Iv(0.0, 1.0, True, True), EPS: Iv(0.0, float("inf"), True, True)}
     try:
         iv = _diff_interval(doc, thr, dom)
